@@ -23,7 +23,7 @@ Variable junk : Z -> blob.
 (* resume_sound + resume_preserves, TLS <= 1.2 (session ID and ticket), all histories:
    the server resumes => suite still acceptable and offered, SNI / SRP user / EtM / EMS consistent,
    found in the cache (resumable, not older than maxAge) or under a CURRENT ticket key within the
-   lifetime, and it stems from a connection r0 of the history that completed, whose suite, EMS, EtM,
+   lifetime (ByBoth: both, the cached object is used, /repo 4da1727), and it stems from a connection r0 of the history that completed, whose suite, EMS, EtM,
    server name, client identity and master secret the resumed connection has. *)
 Theorem resume_sound_and_preserves_ideal : ideal_aead blob seal open tamper junk ->
   forall w cp sv cr,
@@ -36,10 +36,11 @@ Theorem resume_sound_and_preserves_ideal : ideal_aead blob seal open tamper junk
     match o with
     | ByCache => accepted_by_cache blob (sv_cfg sv) (sv_store sv) h (w_now w) s
     | ByTicket k => accepted_by_ticket blob open (sv_cfg sv) h (w_now w) k s
+    | ByBoth k => accepted_by_both blob open (sv_cfg sv) (sv_store sv) h (w_now w) k s
     | ByPsk _ => False
     end /\
     exists r0 v0, In r0 (w_log w) /\ is_done (r_out r0) /\ r_sview r0 = Some v0 /\ same_security s v0 /\
-                  (o = ByCache -> r_out r0 = ODone false false /\ v0 = s).
+                  (o = ByCache \/ (exists k, o = ByBoth k) -> r_out r0 = ODone false false /\ v0 = s).
 Proof. exact (resume_sound_preserves12 blob seal open tamper junk). Qed.
 
 (* TLS 1.3 PSK, all histories.  resume_sound is complete: current key, ticket version, WITHIN LIFETIME
@@ -81,14 +82,19 @@ Theorem unknown_session_id_declined :
   snd (server_try_resume blob open cfg st acc h now) = SFull.
 Proof. exact (server_try_resume_unknown_id blob open). Qed.
 
-(* invalidated_never_resumes, server side, session-ID path: after any connection bound to the cached
-   session died abnormally at the server (cr_ks), no connection of any continuation resumes it by ID *)
+(* invalidated_never_resumes, server side: after any connection bound to the cached session died
+   abnormally at the server (cr_ks), no connection of any continuation resumes it by ID, nor by a
+   ticket matched with the cached object.  Since /repo 4da1727 ticket resumptions whose hello names the
+   cached session are bound to it (ByBoth), so their failure counts; before, the history
+   [full; close; resumed from ticket; abrupt close at the server; ticket expires; offer by ID] resumed
+   (see ticketconn_failure_reaches_cache).  Tickets alone stay stateless: refuted at the end. *)
 Theorem invalidated_never_resumes_ideal : ideal_aead blob seal open tamper junk ->
   forall w cp sv cr crec sid,
   reachable blob seal open tamper junk w -> zget (w_servers w) (cp_srv cp) = Some sv ->
   In crec (w_conns w) -> cr_ks crec = true -> cr_sobj crec = Some sid -> cr_srv crec = cp_srv cp ->
   let r := d_log blob (conn_delta blob seal open w cp sv) in
-  r_out r = ODone true cr -> r_ver r < 4 -> r_src r = Some ByCache ->
+  r_out r = ODone true cr -> r_ver r < 4 ->
+  r_src r = Some ByCache \/ (exists k, r_src r = Some (ByBoth k)) ->
   forall s, r_sview r = Some s -> s_sid s <> sid.
 Proof. exact (invalidated_never_resumes_by_id blob seal open tamper junk). Qed.
 
@@ -147,6 +153,18 @@ Example tls13_expired_history_declined :
     r_hello (d_log sblob (conn_delta sblob Sealed sopen w cp sv)) = Some h /\ h_psk h <> None /\
     r_out (d_log sblob (conn_delta sblob Sealed sopen w cp sv)) = ODone false false.
 Proof. exact Proofs.C13_Thms.tls13_expired_history_declined. Qed.
+
+(* the history of the former finding ticket-connection-failure-not-propagated-to-cache now falls back *)
+Example ticketconn_failure_reaches_cache :
+  let w := srun [wit_cfg_both] wit_ticketconn_history in
+  let cp := wit_cp 3 (Some 0) 1 49199 in
+  exists sv r1 h,
+    zget (w_servers w) 0 = Some sv /\
+    nth_error (w_log w) 1 = Some r1 /\ r_src r1 = Some (ByBoth 1) /\ r_out r1 = ODone true true /\
+    r_hello (d_log sblob (conn_delta sblob Sealed sopen w cp sv)) = Some h /\
+    h_ticket h = None /\ h_sid h <> 0 /\
+    r_out (d_log sblob (conn_delta sblob Sealed sopen w cp sv)) = ODone false false.
+Proof. exact ticketconn_failure_reaches_cache_witness. Qed.
 
 (* resume_preserves (server name, suite) REFUTED for TLS 1.3 (design level: RFC 8446 permits; known
    finding); the client identity is carried over *)
